@@ -772,3 +772,44 @@ func clipDiff(a, b string) string {
 	}
 	return strings.Join(out, "\n")
 }
+
+// Refine pins a schedule-dependent difference to one map-range site: the failing schedule is
+// replaced by "shuffle only the iterations at site S" for each rewritten site in turn.
+func (C08) Refine(env *sim.Env, data json.RawMessage, class string, stillFails func(json.RawMessage) bool) (json.RawMessage, []string) {
+	var sc C08Scenario
+	if json.Unmarshal(data, &sc) != nil || len(sc.Schedules) == 0 {
+		return nil, nil
+	}
+	var notes []string
+	// 1. one schedule is enough
+	for _, s := range sc.Schedules {
+		c := sc
+		c.Schedules = []sim.Schedule{s}
+		b, _ := json.Marshal(c)
+		if stillFails(b) {
+			sc = c
+			data = b
+			break
+		}
+	}
+	if len(sc.Schedules) != 1 {
+		return data, notes
+	}
+	seed := sc.Schedules[0].Seed
+	// 2. which single site reproduces it?
+	for i, site := range env.Sites {
+		c := sc
+		// the "site" tail resolves its site as Sites[Seed mod len(Sites)]: choose a seed congruent to i
+		n := uint64(len(env.Sites))
+		for _, code := range []int{1, 0} { // reverse order at the site, then a seeded shuffle
+			c.Schedules = []sim.Schedule{{Tail: "site", Site: "?", Seed: seed - seed%n + uint64(i), SiteCode: code}}
+			b, _ := json.Marshal(c)
+			if stillFails(b) {
+				notes = append(notes, "culprit: permuting only the iterations at "+site+" reproduces the difference")
+				return b, notes
+			}
+		}
+	}
+	notes = append(notes, "no single site reproduces the difference: it needs the interplay of several map iterations")
+	return data, notes
+}
